@@ -4480,9 +4480,11 @@ func (l *Lowerer) lowerAssign(assign *parser.AssignStmt, target *[]ir.Statement)
 	// Special case: *ptr = value extracts the inner pointer.
 	var pointer ir.ExpressionHandle
 	var err error
+	explicitDeref := false
 	if unary, ok := assign.Left.(*parser.UnaryExpr); ok && unary.Op == parser.TokenStar {
 		// *ptr dereference: the operand itself is the pointer
 		pointer, err = l.lowerExpressionForRef(unary.Operand, target)
+		explicitDeref = true
 	} else {
 		pointer, err = l.lowerExpressionForRef(assign.Left, target)
 	}
@@ -4510,6 +4512,11 @@ func (l *Lowerer) lowerAssign(assign *parser.AssignStmt, target *[]ir.Statement)
 		// Must happen BEFORE Splat to match Rust expression ordering:
 		// concretize → Load → Splat → Binary
 		loaded := l.applyLoadRule(pointer)
+		if explicitDeref && loaded == pointer {
+			// *p += v with p a pointer value (a ptr<> parameter): the load rule
+			// only loads references, the explicit dereference asks for the pointee.
+			loaded = l.addExpression(ir.Expression{Kind: ir.ExprLoad{Pointer: pointer}})
+		}
 		// Splat scalar RHS to match vector LHS (e.g., a += 1.0 where a: vec2<f32>).
 		value = l.splatScalarToMatchPointer(pointer, value)
 		value = l.addExpression(ir.Expression{
